@@ -17,7 +17,7 @@ def extra(chk, info, res):
 
 
 def run(chk):
-    ac.run_actor_property(chk, MODULE, THEOREMS, monitor_pids=["C04", "C01"]  # the emergency stop ends in Filtration.halt: "stops the whole system" is C01 from there on, extra=extra)
+    ac.run_actor_property(chk, MODULE, THEOREMS, monitor_pids=["C04", "C01"], extra=extra)  # the emergency stop ends in Filtration.halt: "stops the whole system" is C01 from there on
     ac.responsiveness(chk, ['Tank', 'Filtration'])
     from checks import altcfg as _alt
     _alt.binding(chk, ['tank'])
